@@ -157,7 +157,9 @@ def _assemble(res, hi, h):
         elif op["k"] == "save":
             o["res"] = "ok"
         else:
-            o["per"] = [p["mine"] for p in per]
+            # a residual list's files hold `sample - mean`: compare residual tags (after a refused save the files and the
+            # mean on disk may stem from different saves)
+            o["per"] = [[t - p["mean"] for t in p["mine"]] if op["residual"] else p["mine"] for p in per]
             if len({p["n"] for p in per}) != 1 or (op["residual"] and len({p["mean"] for p in per}) != 1):
                 o["error"] = "ranks-disagree:n"
             if op["residual"]:
@@ -173,6 +175,7 @@ def _to_model(h):
             m = dict(k="save", b=op["b"], xs=op["xs"], counts=op["counts"], ow=op["ow"])
             if op.get("mean") is not None:
                 m["mean"] = op["mean"]
+                m["xs"] = [t - op["mean"] for t in op["xs"]]
             ops.append(m)
         else:
             ops.append(dict(k="load", b=op["b"], q=max(op["q"], 1), residual=op["residual"]))
@@ -200,7 +203,10 @@ def _property_check(h, real):
             return (f"load of base {BASES[b]!r} with {op['q']} tasks after a successful save of {len(st[1])} samples fails: "
                     f"{o['error']}", {"site": "load", "what": "error-after-save", "err": o["error"].split(":")[0],
                                       "name": "plain" if BASES[b] in BASES[:5] else "regex-metachar"})
-        got = [t for row in o["per"] for t in row]
+        got = [t + (o.get("mean_tag", 0) if op["residual"] else 0) for row in o["per"] for t in row]
+        if op["residual"] and o.get("mean_tag") != st[2]:
+            return (f"load of base {BASES[b]!r} returns mean {o.get('mean_tag')}, last successful save wrote {st[2]}",
+                    {"site": "load", "what": "wrong-mean"})
         if got != st[1]:
             return (f"load of base {BASES[b]!r} with {op['q']} tasks returns samples {got}, last successful save wrote {st[1]}",
                     {"site": "load", "what": "wrong-samples"})
@@ -236,6 +242,11 @@ def shrink(case):
 
 
 # ------------------------------------------------------------------------------------------------------
+def _mean_tag(rng):
+    """mean tags are < 64 and sample tags multiples of 64 (see `tagger`): residual tags `sample - mean` identify both"""
+    return rng.randrange(1, 60)
+
+
 def _gen_history(rng, tagger, plain_names):
     nb = rng.choice([1, 1, 2, 3])
     pool = BASES[:5] if plain_names else BASES
@@ -250,9 +261,10 @@ def _gen_history(rng, tagger, plain_names):
             counts = [0] * max(p, 1)
             for _i in range(n):
                 counts[rng.randrange(len(counts))] += 1
+            mean_tag = _mean_tag(rng) if resid[b] else None
             op = dict(k="save", b=b, xs=[tagger() for _ in range(n)], p=p, counts=counts, ow=rng.random() < 0.7)
             if resid[b]:
-                op["mean"] = tagger()
+                op["mean"] = mean_tag
             ops.append(op)
         else:
             ops.append(dict(k="load", b=b, q=rng.choice([0, 1, 2, 3, 4]), residual=resid[b]))
@@ -526,13 +538,14 @@ def run(ctx):
                 ctx.stat("tasks=" + str(op.get("p", op.get("q"))))
                 if op["k"] == "load" and op["residual"]:
                     ctx.stat("residual-load")
-                ro.pop("mean_tag", None)
             saves = [len(op["xs"]) for op in h["ops"] if op["k"] == "save"]
             nontriv = any(a > b for a, b in zip(saves, saves[1:])) or len({op.get("p", op.get("q")) for op in h["ops"]}) > 1
             names_plain = all(BASES[op["b"]] in BASES[:5] for op in h["ops"])
             ctx.stat("plain-names" if names_plain else "regex-metachar-names")
-            ctx.compare(h, real, model, note="save/load history on the real sample lists vs Model/SampleFiles", nontrivial=nontriv)
             pc = _property_check(h, real)
+            for ro in real:
+                ro.pop("mean_tag", None)
+            ctx.compare(h, real, model, note="save/load history on the real sample lists vs Model/SampleFiles", nontrivial=nontriv)
             if pc:
                 ctx.counterexample(h, *pc)
         ctx.traces_validated += len(histories)
@@ -595,7 +608,7 @@ def search(ctx):
 
     def tagger():
         counter[0] += 1
-        return counter[0]
+        return 64 * counter[0]
     for h in _targeted(tagger) + [_gen_history(rng, tagger, False) for _ in range(30)]:
         r = oracle(h)
         if r:
